@@ -1253,7 +1253,7 @@ VARIANTS = [
 
 META = {
     "design_ref": "DESIGN.md section 3, C12",
-    "technique": "table extraction and sibling cross-check (compiler / permutation generator / length filter) against the declarative quantifier reading; path-condition checks that the consistency test dominates every successful merge and that the expansion loop only returns tested results",
+    "technique": "table extraction and sibling cross-check (compiler / permutation generator / length filter) against the declarative quantifier reading; path-condition checks that the consistency test dominates every successful merge and that the expansion loop only returns tested results; provenance of the repetition counts of yielded expansions; class built by (aliased) visitors of the template compiler",
     "level_text": ("Decides on the current source that the three quantifier tables agree with ?=(0,1) *=(0,inf) "
                    "+=(1,inf), that sequence patterns are searched in all block kinds the property names, that only "
                    "non-semantic fields are ignored and all other template fields compared, and the combination rules of "
